@@ -41,7 +41,7 @@ def main():
             pid = meta.get("property") or next(iter(evals.values())).get("property")
             rel = os.path.relpath(d, root).replace("/SEED/", "-").replace("/", "-")
             name = rel if rel.startswith(("C", "M")) else "%s-%s" % (pid, rel)
-            rounds = {"seed": "r1", "seed2": "r2", "seed3": "r3", "seed4": "r4", "seed5": "r5", "seed6": "r6", "seed7": "r7", "seed8": "r8", "seed9": "r9"}
+            rounds = {"seed": "r1", "seed2": "r2", "seed3": "r3", "seed4": "r4", "seed5": "r5", "seed6": "r6", "seed7": "r7", "seed8": "r8", "seed9": "r9", "seed10": "r10", "seed11": "r11"}
             base = os.path.basename(root.rstrip("/"))
             if base in rounds:
                 name = rounds[base] + "-" + name
